@@ -66,22 +66,17 @@ class ShapelyPolygon(Domain):
     ):
         n = self._compute_number_of_points(n, d, params)
         points = torch.empty((0, self.dim), device=device)
-        big_t, biggest_area = None, 0
         # instead of using a bounding box it is more efficient to triangulate
         # the polygon and sample in each triangle.
-        for t in s_ops.triangulate(self.polygon):
+        triangles = s_ops.triangulate(self.polygon)
+        for t in triangles:
             scaled_n = int(t.area / self.polygon.area * n)
             new_points = self._sample_in_triangulation(t, scaled_n, device)
             if new_points is not None:
                 points = torch.cat((points, new_points), dim=0)
-                # remember the biggest triangle that was inside, if later
-                # some additional points need to be added
-                if t.within(self.polygon) and t.area > biggest_area:
-                    big_t = [t][0]
-                    biggest_area = t.area
             if len(points) == n:
                 break
-        points = self._check_enough_points_sampled(n, points, big_t, device)
+        points = self._check_enough_points_sampled(n, points, triangles, device)
         return Points(points, self.space)
 
     def _sample_in_triangulation(self, t, n, device):
@@ -110,12 +105,17 @@ class ShapelyPolygon(Domain):
         axis_2 = torch.multiply(corners[2] - corners[0], bary_coords[:, 1:])
         return torch.add(torch.add(corners[0], axis_1), axis_2)
 
-    def _check_enough_points_sampled(self, n, points, big_t, device):
-        # if not enough points are sampled, create some new points in the biggest
-        # triangle
+    def _check_enough_points_sampled(self, n, points, triangles, device):
+        # if not enough points are sampled (rounding, rejected candidates), draw the
+        # triangle of every missing point at random, proportional to its area.
+        # Stays uniform.
+        if not isinstance(triangles, (list, tuple)):
+            triangles = [triangles]
+        areas = torch.tensor([t.area for t in triangles], dtype=torch.float64)
         while len(points) < n:
-            new_points = self._sample_in_triangulation(big_t, n - len(points), device)
-            points = torch.cat((points, new_points), dim=0)
+            for i in torch.multinomial(areas, n - len(points), replacement=True):
+                new_points = self._sample_in_triangulation(triangles[i], 1, device)
+                points = torch.cat((points, new_points), dim=0)
         return points
 
     def sample_grid(self, n=None, d=None, params=Points.empty(), device="cpu"):
